@@ -6,6 +6,7 @@
 (*   AddCall/AddReturn/AddPanic   an external enqueue (TimeWheel.Add,      *)
 (*                                queueDelivery.Commit)                    *)
 (*   Sched(e, due)                an attempt ended with a retry obligation *)
+(*   WheelAdd(e, due)             the time the queue handed to its wheel   *)
 (*   Dispatch(e, now)             the attempt for entry e starts           *)
 (*   CloseCall/CloseReturn        shutdown (TimeWheel.Close + wait)        *)
 (*   Panic(g)                     a panic nobody recovered                 *)
@@ -67,6 +68,14 @@ ObsSched(o, e, due) ==
                       !.disp = IF Has(o.disp, e) THEN o.disp ELSE Put(o.disp, e, 0),
                       !.inFlight = IF o.closeSt # "returned" THEN @ \cup {e} ELSE @]
   IN V(o1, o.closeSt # "returned", "ActiveAfterShutdown")
+
+\* The running queue handed entry e to its time wheel with time `due` (read from the wheel of the real queue by
+\* the harness; in the design spec the wheel's time IS the retry time of ObsSched, so there this is the identity).
+\* That is "its scheduled time": the entry may not be dispatched before it - neither by this incarnation nor, from
+\* what the meta-data file says, by one started later on the same spool directory.  It only ever raises the
+\* documented lower bound, and only while the entry has not been dispatched.
+ObsWheel(o, e, due) ==
+  IF Has(o.due, e) /\ o.disp[e] = 0 /\ due > o.due[e] /\ due < NoDue THEN [o EXCEPT !.due = Put(o.due, e, due)] ELSE o
 
 \* the attempt ended with a terminal outcome for message m
 ObsTerminal(o, m) == V([o EXCEPT !.termM = @ \cup {m}], o.closeSt # "returned", "ActiveAfterShutdown")
